@@ -9,6 +9,9 @@ import DarkluaModel.Rules.MethodDef
 import DarkluaModel.Rules.CallParens
 import DarkluaModel.Rules.Trivia
 import DarkluaModel.Rules.ComputeExpression
+import DarkluaModel.Rules.ConvertIndexToField
+import DarkluaModel.Rules.NilDeclaration
+import DarkluaModel.Rules.UnusedVariable
 /-! Line-protocol handlers for property C01:
 * `c01.rule <rule-name-hex> <block>` → transformed block, or `evallite-uncovered` when the rule
   needs the static evaluator on an expression `Rules/EvalLite.lean` does not cover;
@@ -34,13 +37,17 @@ def applyRule (name : String) (b : Block) : Option Block :=
   | "remove_method_definition" => some (Rules.MethodDef.apply b)
   | "remove_function_call_parens" => some (Rules.CallParens.apply b)
   | "compute_expression" => some (Rules.ComputeExpression.apply driverApi b)
+  | "convert_index_to_field" => some (Rules.ConvertIndexToField.apply driverApi b)
+  | "remove_nil_declaration" => some (Rules.NilDeclaration.apply driverApi b)
+  | "remove_unused_variable" => some (Rules.UnusedVariable.apply driverApi b)
   | "remove_spaces" => some (Rules.Trivia.removeSpaces b)
   | "remove_comments" => some (Rules.Trivia.removeComments b)
   | _ => none
 
 def modelled : List String :=
   ["remove_empty_do", "remove_unused_while", "remove_unused_if_branch", "filter_after_early_return",
-   "remove_method_definition", "remove_function_call_parens", "remove_spaces", "remove_comments", "compute_expression"]
+   "remove_method_definition", "remove_function_call_parens", "remove_spaces", "remove_comments", "compute_expression",
+   "convert_index_to_field", "remove_nil_declaration", "remove_unused_variable"]
 
 /-- the hypothesis `H` of the rule's theorem on this block: `in`, or `out <why>` -/
 def region (name : String) (b : Block) : String :=
@@ -50,6 +57,10 @@ def region (name : String) (b : Block) : String :=
     | none =>
       if name == "compute_expression" && Rules.ComputeExpression.outsideH driverApi b then
         "out F5 and/or folded to a multi-valued operand"
+      else if name == "convert_index_to_field" && Rules.ConvertIndexToField.outsideH driverApi b then
+        "out F6 converted key has side effects"
+      else if name == "remove_nil_declaration" && Rules.NilDeclaration.outsideH driverApi b then
+        "out F24 reordered declaration repeats a name"
       else "in"
   else "in"
 
